@@ -267,11 +267,8 @@ type Scenario struct {
 	PVs      []PV                `json:"pvs"`
 	PVCs     []PVC               `json:"pvcs"`
 	Pods     []Pod               `json:"pods"`
-<<<<<<< HEAD
 	Nss      []NS                `json:"nss"` // C02: namespaces with labels (completed by the driver: every namespace a pod lives in)
-=======
 	DRA      *DRA                `json:"dra,omitempty"` // dynamic resource allocation (dra.go); absent = IgnoreDRARequests
->>>>>>> ag-resv
 }
 
 const NoInt = -1000
@@ -486,13 +483,10 @@ func (s *Scenario) Normalise() {
 	for i := range s.Pods {
 		s.Pods[i].normalise()
 	}
-<<<<<<< HEAD
 	s.completeNamespaces()
-=======
 	if s.DRA != nil {
 		s.DRA.normalise()
 	}
->>>>>>> ag-resv
 	s.completeUniverse()
 }
 
